@@ -94,9 +94,9 @@ def fill(claim, na):
       'translation validation: instruction grammar vs linear normal form of abstractly interpreted definitions', 'DESIGN.md §3 C02')
 
     c('C15',
-      'Balance identities decided on linear normal forms of all paths (overpayment/amount owed are the two signed halves of payments minus tax under complementary guards, refund + applied = overpayment; NC likewise: 6 identities x 3 years) and non-negativity by abstract interpretation in a sign domain with symbolic upper bounds as a greatest fixed point over the line graph: about 510 lines per year of the frozen list must stay provably non-negative for non-negative inputs.',
-      'Trusted: sa/signs.py, sa/linform.py, sa/lineabs.py; frozen lists sa/data/nonneg_lines.json (lines provable on the confirmed baseline) and balance_identities.json. Not armed (listed in the evidence): lines whose sign depends on AGI being non-negative and the capital-gain / Form 8606 / child-credit worksheets whose non-negativity needs relational case analysis; rounding effects are not modelled.',
-      'abstract interpretation (sign + upper-bound domain, greatest fixed point) + linear identities', 'DESIGN.md §3 C15')
+      'Balance identities decided on linear normal forms of all paths (overpayment/amount owed are the two signed halves of payments minus tax under complementary guards, refund + applied = overpayment; NC likewise: 6 identities x 3 years). Non-negativity in two stages: abstract interpretation in a sign domain with symbolic upper bounds (min(a,b)<=a, x*r<=x for a rate or a ratio line capped at 1, a-b>=0 under a guard or when a bounds b) as a greatest fixed point over the line graph, then relational proofs for the rest: the definitions of the lines read are unfolded path by path, min/max/floor terms split into their linear cases and every leaf system {guards, equalities, sign facts, symbolic upper bounds, goal<0} refuted by exact Fourier-Motzkin elimination over the rationals (same form first, at most 6 lines of other forms per branch). About 535-560 of the ~580-610 amount lines per year are proven and frozen (R15.2: must stay provable); the credit lines the forms define as non-negative but that are not provable are reported at the line where the sign is lost (R15.3).',
+      'Trusted: sa/signs.py, sa/relational.py, sa/linform.py, sa/lineabs.py; frozen lists sa/data/nonneg_lines.json (lines provable on the confirmed baseline), nonneg_required.json (credit lines required although unprovable) and balance_identities.json. Known finding (reproduced on the real code, 2022 and 2023): Credit Limit Worksheet A line 3 and through it Schedule 8812 line 14 / Form 1040 line 19 are negative when Schedule 3 line 1 exceeds the tax. Not armed (listed in the evidence with the losing expression): lines whose sign depends on AGI, which may legitimately be negative (1040.9/11, 8812.1/3, Schedule A 2/3, 6251 worksheet, 8995.11, NC 6/8/12b/14), Form 8606 lines that need mutually consistent inputs, 2021 Schedule 8812 Part III lines that are non-negative only in the context in which they are demanded, and the signed NC pseudo-line "refund". Rounding of stored values is not modelled.',
+      'abstract interpretation (sign + upper-bound domain, greatest fixed point) + polyhedral case analysis (exact Fourier-Motzkin) + linear identities', 'DESIGN.md §3 C15, §10')
     c('C16',
       'Two of the four relations plus a sibling rule: renumbering invariance as a symmetry rule on every definition (index only in instance position, only permutation-invariant combination, fixed positions only in the frozen per-payer listing lines); taxpayer/spouse atom symmetry of every definition that treats both; withholding one-for-one: each source enters its line and each link of 25a/b/c -> 25d -> 33 with coefficient exactly 1 on every value path, and total tax and its ancestors lie outside the taint closure of the withholding sources (with the C15 identity this gives refund-minus-owed moving dollar for dollar).',
       'Trusted: sa/lineabs.py, sa/linform.py, sa/symmetry.py; frozen tables listing_lines.json, withholding_chain.json, symmetry_exceptions.json (one accepted asymmetry with reason). NOT decided and not claimed: "more wages never lower total tax" and "a larger deduction never raises it" (monotonicity through data-dependent switches); float re-association under renumbering.',
